@@ -87,3 +87,17 @@ def run_rp(ctx, pid_prefixes, n, depth):
             k = a['a'] + ('.' + a['f'] if a.get('f') else '')
             acts[k] = acts.get(k, 0) + 1
     ctx.parts.append({'part': 'replayed_sessions', 'behaviours': len(behs), 'depth': depth, 'actions_replayed': acts})
+
+
+def replay_one(ctx, behaviour, pid_prefixes):
+    """--replay: the recorded behaviour is replayed again on real objects and judged by Trace_Session."""
+    trace = session_rp.replay(behaviour)
+    cfg = 'SPECIFICATION TSpec\nCONSTANTS\n  MaxDepth = 99\nINVARIANT THeapIsIntent\nCHECK_DEADLOCK FALSE\n'
+    path = os.path.join(ctx.scratch.path, 'sess_replay.json')
+    tlc.dump_json(path, [trace])
+    res = tlc.must(tlc.run('Trace_Session', cfg, ctx.scratch, env={'TRACE_FILE': path}, workers=1), 'Trace_Session')
+    for p in res['prints']:
+        if p[0] == 'VERDICT':
+            for f in dict.fromkeys(p[2]):
+                if any(f.startswith(x) for x in pid_prefixes):
+                    ctx.violation(f, 'replayed session')
